@@ -134,6 +134,7 @@ let parse_action (toks : string list) : tr_in * bool * tr_out =
   | ["SF"; k; si; rd; sd; dp; f1; f2; ext; ident] ->
       (InSlaveSet (ni k, si = "1", ni rd, sd = "1", dp = "1", zi f1, zi f2, unhex ext, zi ident), false, OutUnit)
   | ["CLEAN"] -> (InClean, false, OutUnit)
+  | "RA" :: k :: a :: rest -> (InResetAddr (ni k, zi a), false, (match out_of rest with Some o -> o | None -> OutUnit))
   | _ -> raise (Bad ("action " ^ String.concat " " toks))
 
 (* the model's rendering of the same action *)
@@ -147,6 +148,7 @@ let render_action (toks : string list) (r : (sys * tr_out) res) : string =
   | "SV" :: _, Ok (_, OutSlave reply) -> Printf.sprintf "%s %s" (pre 3) (match reply with None -> "N" | Some b -> hex b)
   | ("RX" | "RW") :: _, _ -> fail (pre 4)
   | "TO" :: _, _ -> fail (pre 3)
+  | "RA" :: _, _ -> fail (pre 3)
   | "EN" :: _, Ok (_, OutUnit) -> pre 2 ^ " ok"
   | "EN" :: _, Ok (_, OutPanicked) -> pre 2 ^ " unw"
   | "ADD" :: _, Ok (_, OutHandle h) -> Printf.sprintf "%s %d %d" (pre 2) (int_of_nat h.hd_index) (int_of_z h.hd_addr)
@@ -300,6 +302,7 @@ let handle (case : string) (out : string) : unit =
                 | InPower _ -> count "dp:step:power-cycle"
                 | InSlaveSet _ -> count "dp:step:slave-set"
                 | InClean -> count "dp:step:clean-marker"
+                | InResetAddr _ -> count "dp:step:reset-address"
                 | _ -> count "dp:step:api");
                (match r with
                 | Panic _ -> count "dp:outcome:panic"
@@ -351,25 +354,33 @@ let handle (case : string) (out : string) : unit =
                                     ts_obs = s.s_obs; ts_op = s.s_op }) isteps in
   let texts = Array.of_list (List.map (fun s -> s.s_text) isteps) in
   if not conf.cf_autotake then count "dp:monitors:skipped-manual-take"
-  else if not (conf_sane conf) then count "dp:monitors:skipped-duplicate-address"
+  else if not (ra_sane conf tsteps) then count "dp:monitors:skipped-duplicate-address"
   else if not (contract_ok conf tsteps) then count "dp:monitors:skipped-contract-violation"
   else begin
     count "dp:monitors:run";
+    if has_reset tsteps then count "dp:history:with-reset-address";
+    (* known class F22: reset_address while the reply of that peripheral is outstanding *)
+    let known_ra = known_reset_while_pending conf tsteps in
+    if known_ra then count "dp:history:reset-address-while-reply-outstanding";
     let run prop name (v : (nat * z) option) =
       match v with
       | None -> ()
       | Some (i, code) ->
+          if known_ra && prop <> "C07" then begin
+            count (Printf.sprintf "dp:known-f22:%s:%d" prop (int_of_z code)); report_known prop "F22" case end else
           let i = int_of_nat i in
           report_fail prop (Printf.sprintf "%s:%d" name (int_of_z code)) case
             (Printf.sprintf "step %d: %s" (i + 1) (if i < Array.length texts then texts.(i) else "?")) in
-    run "C03" "bring_up" (c03_monitor conf tsteps);
-    run "C04" "process_image" (c04_monitor conf !obs0 tsteps);
-    run "C08" "fcb_retry" (c08_monitor conf tsteps);
-    run "C14" "cycle_events" (c14_monitor conf !hs0 tsteps);
-    (match c07_monitor conf tsteps with
-     | Some (_, code) when int_of_z code = 701 && c07_known_f15 conf tsteps -> report_known "C07" "F15" case
+    (* the _ra monitors are the plain ones on transcripts without reset_address *)
+    run "C03" "bring_up" (c03_monitor_ra conf tsteps);
+    run "C04" "process_image" (c04_monitor_ra conf !obs0 tsteps);
+    run "C08" "fcb_retry" (c08_monitor_ra conf tsteps);
+    run "C14" "cycle_events" (c14_monitor_ra conf !hs0 tsteps);
+    let conf_end = conf_after conf tsteps in
+    (match c07_monitor_ra conf tsteps with
+     | Some (_, code) when int_of_z code = 701 && c07_known_f15 conf_end tsteps -> report_known "C07" "F15" case
      | v -> run "C07" "recovery" v);
-    (match c07_cycles_needed conf tsteps with
+    (match c07_cycles_needed conf_end tsteps with
      | Some n -> count (Printf.sprintf "dp:recovery-cycles:%02d" (int_of_nat n))
      | None -> ())
   end
